@@ -41,14 +41,29 @@ def laneMeta : List String → String
 
 /-! ### round 4: byte-position matrix, option life cycle, interim loops, budgets -/
 
-/-- `c07opts <supported 0|1> <ops E D 1 2 3 U C | ->` → nil-ness of the HTTP/3 fields, forced version,
-and what an Alt-Svc response / a forced dispatch does in that state -/
+def parseOps (ops : String) : Option (List Req.C07.ProtoOpts.Op) :=
+  let cs := if ops == "-" then [] else ops.toList.map (fun c => String.singleton c)
+  cs.mapM Req.C07.ProtoOpts.opOfString
+
+/-- `c07opts <supported 0|1> <ops E D 1 2 3 U C | ->` → nil-ness of the HTTP/3 fields and the forced
+version after the setter sequence -/
 def laneOpts : List String → String
   | [sup, ops] =>
-    let cs := if ops == "-" then [] else ops.toList.map (fun c => String.singleton c)
-    match cs.mapM Req.C07.ProtoOpts.opOfString with
+    match parseOps ops with
     | none => "bad-op"
     | some l => Req.C07.ProtoOpts.render (Req.C07.ProtoOpts.run (sup == "1") {} l)
+  | _ => "bad-op"
+
+/-- `c07optuse <supported> <ops> <https 0|1> <respH3 0|1>` → what an Alt-Svc response with a usable
+h3 entry and what the forced-version dispatch do in the state the sequence leaves -/
+def laneOptUse : List String → String
+  | [sup, ops, https, r3] =>
+    match parseOps ops with
+    | none => "bad-op"
+    | some l =>
+      let s := Req.C07.ProtoOpts.run (sup == "1") {} l
+      "altsvc=" ++ Req.C07.ProtoOpts.useString (Req.C07.ProtoOpts.onAltSvc s (https == "1") (r3 == "1")) ++
+      " forced=" ++ Req.C07.ProtoOpts.useString (Req.C07.ProtoOpts.onForced s)
   | _ => "bad-op"
 
 def parseHeadTok (t : String) : Option Req.C07.Interim.Head :=
@@ -195,6 +210,7 @@ def lanes : List (String × (List String → String)) := [
   ("c07altsvc", laneAltSvc),
   ("c07meta", laneMeta),
   ("c07opts", laneOpts),
+  ("c07optuse", laneOptUse),
   ("c07interim", laneInterim),
   ("c07token", laneToken),
   ("c07h1pos", laneH1Pos),
